@@ -214,17 +214,20 @@ impl Check for C17 {
         v
     }
     fn workloads(&self) -> Vec<Workload> {
-        vec![Workload { name: "arena-churn+battery", quick: 2500, thorough: 150_000 }, Workload { name: "long-history+battery", quick: 60, thorough: 3000 }]
+        vec![Workload { name: "arena-churn+battery", quick: 2500, thorough: 150_000 }, Workload { name: "long-history+battery", quick: 60, thorough: 3000 }, Workload { name: "send-window-recovery", quick: if cfg!(miri) { 20 } else { 1200 }, thorough: if cfg!(miri) { 20 } else { 400_000 } }]
     }
     fn min_nontrivial(&self, tier: Tier) -> usize {
         if tier == Tier::Quick { 200 } else { 2000 }
     }
     fn required_counters(&self) -> Vec<&'static str> {
-        vec!["compactions_moving_entries", "arena_entries_compared", "batteries_compared", "retransmissions_compared", "refused_requests_checked", "acknowledged_entries_freed", "continuations_on_a_fresh_broker_session"]
+        vec!["compactions_moving_entries", "arena_entries_compared", "batteries_compared", "retransmissions_compared", "refused_requests_checked", "acknowledged_entries_freed", "continuations_on_a_fresh_broker_session", "send_windows_refilled", "exchanges_ended_by_a_failure_code"]
     }
     fn run(&self, workload: usize, seed: u64, _index: u64, tier: Tier, verbose: bool) -> CaseOut {
         let mut out = CaseOut::default();
         let mut rng = Rng::new(seed);
+        if workload == 2 {
+            return window_recovery(&mut rng, seed, verbose);
+        }
         let profile = churn(&mut rng);
         let cfg = {
             let mut c = gen_cfg(&mut rng, &profile);
@@ -277,4 +280,89 @@ impl Check for C17 {
         finish_case("C17", &log, &w, &mut out, nt, verbose);
         out
     }
+}
+
+/// C17, in-flight slots: a send window (Receive Maximum 1..8) is filled with QoS 1 / QoS 2
+/// publishes, every exchange is ended in one of the ways MQTT 5 knows (PUBACK or PUBREC with a
+/// success or failure code, short and long form; PUBCOMP), in any order; afterwards the session
+/// must accept exactly as many publishes as the window holds, like a brand-new one.
+fn window_recovery(rng: &mut Rng, seed: u64, verbose: bool) -> CaseOut {
+    use crate::checks::{connect_with, poll0, pubq, run_script};
+    use crate::exec::{ErrRepr, OkKind, Outcome};
+    use crate::refcodec::{Prop, SPacket};
+    use crate::steps::{BrokerAct, SpMode};
+    let mut out = CaseOut::default();
+    let rm: Option<u16> = *rng.pick(&[Some(1u16), Some(1), Some(2), Some(3), Some(8), None, Some(20)]);
+    let window = rm.map(|r| r.min(8)).unwrap_or(8) as usize;
+    let cfg = CaseCfg { rx: 128, tx: 4096, keepalive: 0, ..CaseCfg::default() };
+    let mut steps = vec![connect_with(SpMode::Force(false), AckMode::Hold, rm.map(|r| vec![Prop::ReceiveMaximum(r)]).unwrap_or_default())];
+    let rounds = 1 + rng.below(3);
+    let mut pid = 0u16;
+    let mut ended_by: Vec<String> = Vec::new();
+    let codes = [0x80u8, 0x83, 0x87, 0x90, 0x91, 0x97, 0x99];
+    for _ in 0..rounds {
+        // fill the window (sometimes not completely)
+        let n = if rng.chance(1, 4) { 1 + rng.below(window) } else { window };
+        let mut open: Vec<(u16, u8)> = Vec::new();
+        for k in 0..n {
+            pid += 1;
+            let qos = 1 + rng.below(2) as u8;
+            steps.push(pubq(qos, "w", pid as u32, k % 3));
+            open.push((pid, qos));
+        }
+        steps.push(poll0());
+        rng.shuffle(&mut open);
+        for (id, qos) in open {
+            let fail = rng.chance(1, 2);
+            let reason: Option<u8> = if fail { Some(*rng.pick(&codes)) } else { *rng.pick(&[None, Some(0u8), Some(0x10)]) };
+            let props = if reason.is_some() && rng.chance(1, 4) { Some(vec![Prop::ReasonString("r".into())]) } else { None };
+            if qos == 1 {
+                steps.push(Step::Broker(BrokerAct::Send(SPacket::PubAck { pid: id, reason, props })));
+                steps.push(poll0());
+                ended_by.push(format!("PUBACK/{:?}", reason));
+            } else {
+                steps.push(Step::Broker(BrokerAct::Send(SPacket::PubRec { pid: id, reason, props })));
+                steps.push(poll0());
+                ended_by.push(format!("PUBREC/{:?}", reason));
+                if !fail {
+                    steps.push(poll0());
+                    steps.push(Step::Broker(BrokerAct::Send(SPacket::PubComp { pid: id, reason: *rng.pick(&[None, Some(0u8), Some(0x92)]), props: None })));
+                    steps.push(poll0());
+                }
+            }
+            if fail {
+                out.count("exchanges_ended_by_a_failure_code", 1);
+            }
+        }
+    }
+    steps.push(poll0());
+    // refill: window + 1 requests with acknowledgements withheld
+    let probe_from = steps.len();
+    for k in 0..window + 1 {
+        steps.push(pubq(1, "probe", 0x9000 + k as u32, 1));
+    }
+    let (log, world) = run_script(&cfg, steps, seed);
+    let w = world.borrow();
+    out.evaluations += 1;
+    let probes: Vec<&crate::exec::OpRec> = log.ops.iter().filter(|o| o.step >= probe_from && o.kind == "publish1").collect();
+    let quiescent_before = log.ops.iter().find(|o| o.step >= probe_from).and_then(|o| o.snap_before.as_ref()).is_some_and(|sn| sn.tx.retained.is_empty() && sn.tx.release.is_empty());
+    if probes.len() == window + 1 && quiescent_before {
+        out.count("send_windows_refilled", 1);
+        let accepted = probes.iter().filter(|o| matches!(o.outcome, Outcome::Ok(OkKind::Handle(_)))).count();
+        let last_refused = matches!(probes.last().unwrap().outcome, Outcome::Err(ErrRepr::NotReady | ErrRepr::InflightExhausted));
+        out.key(format!("window={}/last-ended-by={}", window, ended_by.last().cloned().unwrap_or_default()));
+        out.nontrivial.push(crate::trace::hash_of(&(window, ended_by.clone())));
+        if accepted != window || !last_refused {
+            let first_bad = probes.iter().position(|o| !matches!(o.outcome, Outcome::Ok(_))).unwrap_or(0);
+            out.violations.push(viol("C17", format!("C17/leak/send-window/after-{}", ended_by.last().map(|e| e.split('/').next().unwrap_or("?").to_string()).unwrap_or_default()), format!("window of {} (Receive Maximum {:?}), every exchange ended ({:?}), nothing in flight: {} of {} new QoS 1 publishes accepted, request {} returned {:?}; a brand-new session accepts exactly {}", window, rm, ended_by, accepted, window + 1, first_bad, probes.get(first_bad).map(|o| &o.outcome), window)));
+            if verbose {
+                for l in render(&log, &w, 400) {
+                    println!("{}", l);
+                }
+            }
+        }
+    } else {
+        out.count("send_window_cases_not_drained", 1);
+    }
+    out
 }
